@@ -188,6 +188,9 @@ def load_seeded():
             meta = os.path.join(sd, name, "meta.json")
             if os.path.exists(meta):
                 md = json.load(open(meta))
+                if md.get("expected_miss"):
+                    print("seeded  %-8s not caught by design: %s" % (name, md["expected_miss"][:160]))
+                    continue
                 out.append({"id": name, "props": md.get("caught_by") or [md["property"]], "patch": "seeded/%s/patch.diff" % name,
                             "note": md.get("needs", "")})
     return out
